@@ -1,7 +1,7 @@
 (* Properties_C04.v — C04: Factor followed by Solve returns x with A x = b in every block.
    Property theorems only; proofs in LUProofs.v.  The theorems are per block: LU.v models one
    block, and the tie checks that the implementation treats every block / lane that way. *)
-From Model Require Import Base LU LUProofs DoolittleProofs DoolittleIPProofs.
+From Model Require Import Base LU LUProofs DoolittleProofs DoolittleIPProofs MozartIPProofs.
 From Coq Require Import Field.
 Local Open Scope nat_scope.
 
@@ -61,3 +61,18 @@ Theorem C04_doolittle_in_place_factor_then_solve :
     forall r, r < n -> nsum N n (fun c => nmul N (view N Ap A r c) (x c)) = b r.
 Proof. exact doolittle_in_place_factor_then_solve. Qed.
 Print Assumptions C04_doolittle_in_place_factor_then_solve.
+
+(* the same for the Mozart in-place pair *)
+Theorem C04_mozart_in_place_factor_then_solve :
+  forall (N : Num)
+    (Nfield : field_theory (n0 N) (n1 N) (nadd N) (nmul N) (nsub N) (nopp N) (ndiv N) (ninv N) eq)
+    n (A : mat N) (Ap : pat) (M0 : mat N) (b : vec N),
+    (forall i, i < n -> Ap i i = true) ->
+    let P := mozart_ip_sym n Ap in
+    (forall r c, r < n -> c < n -> P r c = true -> M0 r c = view N Ap A r c) ->
+    let M := mozart_ip_num N n P M0 in
+    (forall i, i < n -> M i i <> n0 N) ->
+    let x := lin_solve_ip N n P M b in
+    forall r, r < n -> nsum N n (fun c => nmul N (view N Ap A r c) (x c)) = b r.
+Proof. exact mozart_in_place_factor_then_solve. Qed.
+Print Assumptions C04_mozart_in_place_factor_then_solve.
